@@ -1,5 +1,5 @@
 (* C02 — Failover: only healthy backends are used; 503 only when none is healthy.  Statements only. *)
-From Helios Require Import Base.Prelude Base.Wrap Model.Hash Model.Strategy Model.LB Proofs.StrategyProofs Proofs.LBProofs.
+From Helios Require Import Base.Prelude Base.Wrap Model.Hash Model.Strategy Model.LB Proofs.StrategyProofs Proofs.LBProofs Proofs.FailoverProofs.
 
 (* the health gate every dispatch goes through decides exactly "not inside the unhealthy window" *)
 Theorem C02_gate :
@@ -24,7 +24,43 @@ Theorem C02_flag_outside_window : forall b t, bflag b = true -> in_window b t = 
 Proof. exact flag_not_in_window. Qed.
 Print Assumptions C02_flag_outside_window.
 
-(* PARTIAL: the composition "lb_begin answers (1,4) => every pooled backend is inside its window" needs the
-   post-condition of refresh_all (after the lazy expiry of the whole pool, flag = false <-> inside window)
-   which is not yet proved for the pool/removed-object representation; it is monitored on every
-   implementation trace (mon_c02_503) together with "dispatched => outside window" (mon_c02_disp). *)
+(* object identities are pairwise distinct in EVERY reachable state (any history of requests, outcomes, time, probes,
+   admin operations from the initial state) *)
+Theorem C02_identities_distinct :
+  forall cfg k t0 ops, IdsOK (fst (lb_run cfg (lb_init cfg k t0) ops)).
+Proof. intros cfg k t0 ops. apply lb_run_ids. apply init_ids. Qed.
+Print Assumptions C02_identities_distinct.
+
+(* whatever findHealthyBackend hands to the proxy is outside its unhealthy window (under every strategy) *)
+Theorem C02_dispatch_only_outside_window :
+  forall fuel s r b t, fst (find_healthy fuel s r) = Some b -> in_window b t = false.
+Proof. exact find_healthy_some. Qed.
+Print Assumptions C02_dispatch_only_outside_window.
+
+(* THE COMPOSITION: in every reachable state, under every strategy, a request is answered "no healthy backend" (503) only
+   if every pooled backend is inside its unhealthy window at that moment - an ejected backend never makes a request fail
+   while another backend is healthy.  [sane] = the numeric side conditions (counter below 2^64 - n, fewer than 2^31 backends
+   and in-flight requests per backend). *)
+Theorem C02_503_only_if_every_backend_in_window :
+  forall cfg k t0 ops rid q s',
+    let s := fst (lb_run cfg (lb_init cfg k t0) ops) in
+    sane s -> lb_begin cfg s rid q = (s', (1, 4)) ->
+    forall b, In b (pool s) -> in_window b (now s) = true.
+Proof.
+  intros cfg k t0 ops rid q s' s Hs Hb. apply (begin_503_all_in_window cfg s rid q s'); [|exact Hs|exact Hb].
+  apply lb_run_ids. apply init_ids.
+Qed.
+Print Assumptions C02_503_only_if_every_backend_in_window.
+
+Example C02_nonvacuous :
+  (* two backends, one ejected with its window still open, one healthy: the request is dispatched (to the healthy one);
+     both ejected: 503 *)
+  let cfg := {| c_passive := false; c_pthr := 1; c_ptimeout := 30; c_active := false; c_lim := false;
+                c_lcfg := {| Limiter.lmax := 1; Limiter.lrate := 1 |}; c_brk := false;
+                c_bcfg := {| Breaker.maxReq := 1; Breaker.interval := 1; Breaker.btimeout := 1; Breaker.fthr := 1; Breaker.sthr := 1 |} |} in
+  let s0 := fst (lb_run cfg (lb_init cfg RR 0) [LAdd 1 1 true; LAdd 2 1 true]) in
+  let s1 := mark_unhealthy cfg s0 1 1 in
+  let s2 := mark_unhealthy cfg s1 2 2 in
+  snd (lb_begin cfg s1 7 {| h_xff := []; h_xri := []; h_remote := [] |}) = (0, 2)
+  /\ snd (lb_begin cfg s2 7 {| h_xff := []; h_xri := []; h_remote := [] |}) = (1, 4).
+Proof. vm_compute. split; reflexivity. Qed.
